@@ -71,3 +71,15 @@ V("opt-skip-no-dynamic", "C03", "pyteal/compiler/scratchslots.py", "            
 V("opt-default-v8", "C03", "pyteal/compiler/compiler.py", "DEFAULT_SCRATCH_SLOT_OPTIMIZE_VERSION = 9", "DEFAULT_SCRATCH_SLOT_OPTIMIZE_VERSION = 8", "R03.4")
 V("fp-true-below-8-accepted", "C03", "pyteal/compiler/optimizer/optimizer.py", "        if self._frame_pointers:\n            verifyProgramVersion(", "        if self._frame_pointers and version < 0:\n            verifyProgramVersion(", "R03.4")
 V("opt-different-slot-cancel", "C03", "pyteal/compiler/optimizer/optimizer.py", "        if cur_slots[0] != next_slots[0]:\n            continue\n", "", "R03.3")
+
+# ------------------------------------------------------------------------------- C08
+V("callconfig-call-eq-zero", "C08", "pyteal/ast/router.py", "            case CallConfig.CALL:\n                return Txn.application_id() != Int(0)", "            case CallConfig.CALL:\n                return Txn.application_id() == Int(0)", "R08.1")
+V("methodconfig-pair-swap", "C08", "pyteal/ast/router.py", "            (self.opt_in, OnComplete.OptIn),\n            (self.close_out, OnComplete.CloseOut),\n            (self.update_application", "            (self.opt_in, OnComplete.CloseOut),\n            (self.close_out, OnComplete.OptIn),\n            (self.update_application", "R08.1")
+V("methodconfig-all-short-circuit", "C08", "pyteal/ast/router.py", "        elif all(config == CallConfig.ALL for config, _ in config_oc_pairs):", "        elif any(config == CallConfig.ALL for config, _ in config_oc_pairs):", "R08.1")
+V("bare-pair-swap", "C08", "pyteal/ast/router.py", "            (OnComplete.UpdateApplication, self.update_application),\n            (OnComplete.DeleteApplication, self.delete_application),\n        ]\n        if all(oca.is_empty()", "            (OnComplete.UpdateApplication, self.delete_application),\n            (OnComplete.DeleteApplication, self.update_application),\n        ]\n        if all(oca.is_empty()", "R08.2")
+V("bare-create-unguarded", "C08", "pyteal/ast/router.py", "                case CallConfig.ALL:\n                    cond_body = wrapped_handler\n                case CallConfig.CALL | CallConfig.CREATE:", "                case CallConfig.ALL | CallConfig.CREATE:\n                    cond_body = wrapped_handler\n                case CallConfig.CALL:", "R08.2")
+V("method-assert-after-handler", "C08", "pyteal/ast/router.py", "            res = Seq(Assert(self.condition), res)", "            res = Seq(res, Assert(self.condition))", "R08.4")
+V("bare-no-numargs-guard", "C08", "pyteal/ast/router.py", "                        cond := Txn.application_args.length() == Int(0),", "                        cond := Txn.application_args.length() >= Int(0),", "R08.4")
+V("never-method-registered", "C08", "pyteal/ast/router.py", "        if method_config.is_never():\n            raise TealInputError(\n                f\"registered method {method_signature} is never executed\"\n            )\n", "", "R08.5")
+V("clear-state-approve-default", "C08", "pyteal/ast/router.py", "            Reject()\n            if clear_state is None", "            Approve()\n            if clear_state is None", "R08.5")
+V("wrap-no-approve", "C08", "pyteal/ast/router.py", "                    return handler if handler.has_return() else Seq(handler, Approve())", "                    return handler", "R08.2")
